@@ -46,11 +46,13 @@ def compOf (s : Str) : Option Comp :=
   else some (.name s)
 
 /-- `Path::new(s).components()`: repeated and trailing slashes vanish; `.` vanishes except
-    as the first component of a relative path (which vanishes as soon as the path is joined
-    to a base, so the model drops it there as well and never produces `Comp.cur` itself;
-    `normalise` still handles it, as the Rust fold does). -/
+    as the FIRST component of a relative path (`CurDir`), which is why a relative `"."` is a
+    non-empty pathspec while an absolute path equal to the root strips to the empty one. -/
 def parsePath (s : Str) : PathArg :=
-  ⟨s.head? = some '/', ((splitOn '/' s).filterMap compOf).filter (· ≠ .cur)⟩
+  let abs : Bool := s.head? = some '/'
+  let cs := (splitOn '/' s).filterMap compOf
+  let body := cs.filter (· ≠ .cur)
+  if !abs && cs.head? = some .cur then ⟨false, .cur :: body⟩ else ⟨abs, body⟩
 
 def asRaw (d : Dir) : RawPath := d.map .name
 
@@ -229,9 +231,23 @@ def walk (fs : FS) (b : Option RawPath) : Nat → RawPath → Option Dir
 def startDir (fs : FS) (file : RawPath) : RawPath :=
   if isDirRaw fs file then file else file.dropLast
 
+/-- `MAX_SEARCHABLE_PATH_BYTES`: longer paths are refused before the walk (it re-allocates the
+    remaining path per component; quadratic — minutes for a megabyte-sized path) -/
+def maxSearchablePathBytes : Nat := 32768
+
+def compLen : Comp → Nat
+  | .cur => 1
+  | .up => 2
+  | .name s => s.length
+
+/-- length of the path text (exact for ASCII paths without redundant separators) -/
+def rawLen (p : RawPath) : Nat := p.foldl (fun n c => n + compLen c + 1) 0
+
 def findRepoForFile (fs : FS) (file : RawPath) (boundary : Option RawPath) : Option Dir :=
-  let start := canonOr fs (startDir fs file)
-  walk fs (boundary.map (canonOr fs)) (start.length + 1) start
+  if rawLen file > maxSearchablePathBytes then none
+  else
+    let start := canonOr fs (startDir fs file)
+    walk fs (boundary.map (canonOr fs)) (start.length + 1) start
 
 /-- `group_files_by_repository`: per input path (in order) the work tree it is assigned to,
     `none` = orphan. -/
